@@ -128,6 +128,20 @@ CHECKS = {
         note="Relay pull only: the relay-push clause (targets, retries on tick, URL parameter length) is not yet bound to the "
              "code; the auto-stop window is real time (700 ms; stalled scenarios are dropped as inconclusive).",
         ref="6/C17"),
+    "C16": dict(
+        technique="TLA+ specs Lifecycle (pipeline ownership, hook stop, shutdown, group removal) and Fanout (caches / codec "
+                  "information / merge buffer across publisher epochs), TLC exhaustive + simulation, replayed into a real "
+                  "ServerManager with every output enabled and into a real Group + TLC trace validation",
+        text="TLC checks PipelineOwned / EmptyRemoved / NotifyPaired and CleanStart / RecordExact on the models; behaviours "
+             "with inputs of every kind ending by disconnect, kick or server shutdown are replayed into a ServerManager "
+             "with HLS, HTTP-TS, FLV and TS recording and a stream hook enabled: after every step TLC decides the set of "
+             "live pipeline components (none may survive the input, all are rebuilt for the next), that recordings parse "
+             "completely and the HLS playlist carries the end marker, that the hook is stopped exactly once per input, and "
+             "that goroutine / descriptor counts do not grow over 40-200 publish cycles; re-publish scenarios through "
+             "the Fanout model decide that nothing of a predecessor reaches consumers.",
+        note="The idle-timeout sweep and relay-push teardown are not bound to the code here; 'pending audio flushed' is "
+             "observed through the finalised TS record / HLS files only (C06 / C10 inspect their content).",
+        ref="6/C16"),
 }
 
 NOT_APPLICABLE = {}
